@@ -2109,16 +2109,17 @@ protected:    // interface for the derived class
     template<class Event>
     struct process_fsm_internal_table
     {
-        typedef typename ::boost::mpl::has_key<processable_events_internal_table,Event>::type is_event_processable;
+        typedef typename ::boost::mpl::has_key<processable_events_internal_table,
+                                               typename ::boost::remove_cv<Event>::type>::type is_event_processable;
 
         // forward to the correct do_process
-        static void process(Event const& evt,library_sm* self_,::boost::msm::back::HandledEnum& result)
+        static void process(Event& evt,library_sm* self_,::boost::msm::back::HandledEnum& result)
         {
             do_process(evt,self_,result,is_event_processable());
         }
     private:
         // the event is processable, let's try!
-        static void do_process(Event const& evt,library_sm* self_,::boost::msm::back::HandledEnum& result, ::boost::mpl::true_)
+        static void do_process(Event& evt,library_sm* self_,::boost::msm::back::HandledEnum& result, ::boost::mpl::true_)
         {
             if (!(result & (::boost::msm::back::HANDLED_TRUE | ::boost::msm::back::HANDLED_DEFERRED)))
             {
@@ -2128,7 +2129,7 @@ protected:    // interface for the derived class
             }
         }
         // version doing nothing if the event is not in the internal stt and we can save ourselves the time trying to process
-        static void do_process(Event const& ,library_sm* ,::boost::msm::back::HandledEnum& , ::boost::mpl::false_)
+        static void do_process(Event& ,library_sm* ,::boost::msm::back::HandledEnum& , ::boost::mpl::false_)
         {
             // do nothing
         }
